@@ -1,3 +1,212 @@
-"""Kani pipeline (filled in below)."""
-def run_groups(repo, verif, groups, workdir, tier):
-    raise NotImplementedError
+"""Kani pipeline: copy /repo's cao-lang crate to a scratch dir, inject cfg(kani)-only contract
+attributes and harness modules, run `cargo kani`, classify per harness.
+
+Group description: specs/kani/<group>/group.json
+ {
+  "inject": [
+    {"file": "src/x.rs", "mod": "verif_x", "harness": "harness.rs"},          # append a child module
+    {"file": "src/x.rs", "before_fn": "pad_pot", "impl": null, "attrs": ["#[cfg_attr(kani, kani::requires(..))]"]},
+    {"file": "src/x.rs", "widen": "fn conversion_error"}                        # private item -> pub(crate)
+  ],
+  "harnesses": [
+    {"name": "verif_x::h", "kind": "complete"|"bounded", "bound": "...", "clause": "...", "tier": "quick"|"thorough",
+     "covers": 1, "timeout": 300}
+  ]
+ }
+A harness is `complete` only if it is loop-free over full-domain symbolic inputs, or every loop in
+it is bounded by operand width and unwound to it with unwinding assertions on.
+"""
+import json, os, re, shutil, subprocess, time
+from . import rscan
+from .rscan import ScanError
+
+class KaniResult:
+    def __init__(self):
+        self.harnesses = []     # dict(name, group, kind, status, checks, failed_checks, time_s, covers_ok, bound, clause)
+        self.failures = []
+        self.undecided = []
+        self.assumptions = []
+        self.cmd = ''
+        self.build_s = 0.0
+        self.wall_s = 0.0
+    def evidence(self):
+        comp = [h for h in self.harnesses if h['kind'] == 'complete']
+        bnd = [h for h in self.harnesses if h['kind'] == 'bounded']
+        return dict(
+            cmd=self.cmd,
+            complete_checks=sum(h['checks'] for h in comp),
+            complete_checks_ok=sum(h['checks'] - h['failed_checks'] for h in comp if h['status'] in ('success', 'failure')),
+            complete_harnesses=[dict(name=h['name'], status=h['status'], cbmc_properties=h['checks'], time_s=h['time_s'], clause=h['clause']) for h in comp],
+            bounded=[dict(name=h['name'], status=h['status'], bound=h['bound'], cbmc_properties=h['checks'], time_s=h['time_s'], clause=h['clause']) for h in bnd],
+            build_s=round(self.build_s, 1), wall_s=round(self.wall_s, 1),
+            samples=[dict(backend='kani', harness=h['name'], clause=h['clause'], status=h['status']) for h in self.harnesses[:4]],
+        )
+
+def _inject(crate, verif, group, g):
+    gdir = os.path.join(verif, 'specs', 'kani', group)
+    for inj in g.get('inject', []):
+        path = os.path.join(crate, inj['file'])
+        try:
+            src = open(path).read()
+        except OSError as e:
+            raise ScanError('lost anchor: %s' % e)
+        if 'harness' in inj:
+            hp = os.path.join(crate, 'verif_kani_%s_%s' % (group, os.path.basename(inj['harness'])))
+            shutil.copy(os.path.join(gdir, inj['harness']), hp)
+            src += '\n#[cfg(kani)]\n#[path = "%s"]\nmod %s;\n' % (hp, inj['mod'])
+        elif 'before_fn' in inj:
+            item = rscan.locate(src, dict(kind='fn', name=inj['before_fn'], impl=inj.get('impl')))
+            lines = ''.join(a + '\n' for a in inj['attrs'])
+            for a in inj['attrs']:
+                if not a.startswith('#[cfg_attr(kani,'):
+                    raise ScanError('injected attribute is not guarded by cfg(kani): ' + a)
+            src = src[:item.attrs_start] + lines + src[item.attrs_start:]
+        elif 'widen' in inj:
+            # visibility only: `fn x` / `struct X` / `const X` -> pub(crate)
+            pat = inj['widen']
+            n = len(re.findall(r'(?m)^(\s*)' + re.escape(pat) + r'\b', src))
+            if n != 1:
+                raise ScanError('lost anchor: widen `%s` matched %d times in %s' % (pat, n, inj['file']))
+            src = re.sub(r'(?m)^(\s*)' + re.escape(pat) + r'\b', r'\1pub(crate) ' + pat, src, count=1)
+        else:
+            raise ScanError('unknown injection %r' % inj)
+        open(path, 'w').write(src)
+
+def prepare_crate(repo, workdir):
+    crate = os.path.join(workdir, 'cao-lang')
+    if os.path.exists(crate):
+        shutil.rmtree(crate)
+    shutil.copytree(os.path.join(repo, 'cao-lang'), crate, ignore=shutil.ignore_patterns('target', 'benches', 'tests'))
+    shutil.copy(os.path.join(repo, 'Cargo.lock'), os.path.join(crate, 'Cargo.lock'))
+    # a stand-alone package (the workspace root is not copied); benches are dropped
+    toml = open(os.path.join(crate, 'Cargo.toml')).read()
+    toml = re.sub(r'(?s)\[\[bench\]\].*?(?=\n\[)', '', toml)
+    toml += '\n[workspace]\n'
+    open(os.path.join(crate, 'Cargo.toml'), 'w').write(toml)
+    os.makedirs(os.path.join(crate, '.cargo'), exist_ok=True)
+    open(os.path.join(crate, '.cargo', 'config.toml'), 'w').write('[net]\noffline = true\n')
+    return crate
+
+_RES_RE = re.compile(r'^Checking harness (\S+?)\.\.\.', re.M)
+
+def _parse_terse(out):
+    """split `--output-format terse` output per harness (sequential or `Thread N:` interleaved)"""
+    res = {}
+    blocks = {}
+    cur_of_thread = {}
+    cur = None
+    for line in out.splitlines():
+        m = re.match(r'^(?:Thread (\d+): )?Checking harness (\S+?)\.\.\.', line)
+        if m:
+            cur_of_thread[m.group(1)] = m.group(2)
+            cur = m.group(2)
+            blocks.setdefault(cur, [])
+            continue
+        m = re.match(r'^Thread (\d+):\s*(.*)$', line)
+        if m:
+            cur = cur_of_thread.get(m.group(1))
+            line = m.group(2)
+        if cur is not None:
+            blocks[cur].append(line)
+    parts = [None] + [name + '...' + '\n'.join(b) for name, b in blocks.items()]
+    for p in parts[1:]:
+        name = p.split('...', 1)[0].strip()
+        status = 'unknown'
+        if 'VERIFICATION:- SUCCESSFUL' in p:
+            status = 'success'
+        elif 'VERIFICATION:- FAILED' in p:
+            status = 'failure'
+        m = re.search(r'\*\* (\d+) of (\d+) failed', p)
+        failed, total = (int(m.group(1)), int(m.group(2))) if m else (0, 0)
+        mc = re.search(r'\*\* (\d+) of (\d+) cover properties satisfied', p)
+        covers = (int(mc.group(1)), int(mc.group(2))) if mc else (0, 0)
+        mt = re.search(r'Verification Time: ([0-9.]+)s', p)
+        fails = re.findall(r'(?m)^Failed Checks: (.*)$', p)
+        locs = re.findall(r'(?m)^\s*File: "([^"]+)", line (\d+), in (\S+)', p)
+        timeout = 'timed out' in p.lower() or 'timeout' in p.lower()
+        oom = 'out of memory' in p.lower() or 'killed' in p.lower()
+        unwind = any('unwinding assertion' in f for f in fails)
+        res[name] = dict(status=status, failed=failed, total=total, covers=covers, time=float(mt.group(1)) if mt else 0.0,
+                         failed_checks=fails, locs=locs, timeout=timeout, oom=oom, unwind=unwind, text=p[-3000:])
+    return res
+
+def run_groups(repo, verif, groups, workdir, tier, jobs=None):
+    t0 = time.time()
+    R = KaniResult()
+    os.makedirs(workdir, exist_ok=True)
+    tmp = os.path.join(workdir, 'tmp')
+    os.makedirs(tmp, exist_ok=True)
+    want = []
+    try:
+        crate = prepare_crate(repo, workdir)
+        for group in groups:
+            g = json.load(open(os.path.join(verif, 'specs', 'kani', group, 'group.json')))
+            _inject(crate, verif, group, g)
+            for h in g['harnesses']:
+                if h.get('tier', 'quick') == 'thorough' and tier != 'thorough':
+                    continue
+                want.append(dict(h, group=group))
+            R.assumptions += g.get('assumptions', [])
+    except (ScanError, OSError, ValueError) as e:
+        R.undecided.append('injection: %s' % e)
+        R.wall_s = time.time() - t0
+        return R
+    if not want:
+        R.wall_s = time.time() - t0
+        return R
+    max_to = max(int(h.get('timeout', 300)) for h in want)
+    cmd = ['cargo', 'kani', '--solver', 'kissat', '-Z', 'function-contracts', '-Z', 'stubbing', '-Z', 'unstable-options',
+           '--harness-timeout', '%ds' % max_to, '-j', str(jobs or min(12, len(want))), '--output-format', 'terse', '--exact']
+    for h in want:
+        cmd += ['--harness', h['name']]
+    env = dict(os.environ, CARGO_NET_OFFLINE='true', TMPDIR=tmp, CARGO_TARGET_DIR=os.path.join(workdir, 'target'))
+    R.cmd = 'CARGO_NET_OFFLINE=true ' + ' '.join(cmd[:14]) + ' --harness <%d harnesses>' % len(want)
+    try:
+        p = subprocess.run(cmd, cwd=crate, capture_output=True, text=True, env=env, timeout=max_to * 3 + 900)
+        out = p.stdout + '\n' + p.stderr
+    except subprocess.TimeoutExpired as e:
+        out = ((e.stdout or b'').decode(errors='replace') if isinstance(e.stdout, bytes) else (e.stdout or ''))
+        R.undecided.append('cargo kani exceeded the global time cap')
+        subprocess.run(['pkill', '-x', 'cbmc'])
+    open(os.path.join(workdir, 'kani.log'), 'w').write(out)
+    if 'error: could not compile' in out or 'error[E' in out:
+        errs = re.findall(r'(?m)^error.*$', out)[:5]
+        R.undecided.append('harness crate does not compile (anchor moved or signature changed): %s' % ' | '.join(errs))
+        R.wall_s = time.time() - t0
+        return R
+    per = _parse_terse(out)
+    for h in want:
+        name = h['name']
+        r = per.get(name)
+        rec = dict(name=name, group=h['group'], kind=h.get('kind', 'bounded'), bound=h.get('bound', ''), clause=h.get('clause', ''),
+                   status='missing', checks=0, failed_checks=0, time_s=0.0)
+        if r is None:
+            R.undecided.append('harness %s produced no result (cap exceeded, crash or renamed)' % name)
+            R.harnesses.append(rec)
+            continue
+        rec.update(status=r['status'], checks=r['total'], failed_checks=r['failed'], time_s=r['time'])
+        if r['status'] == 'unknown' or r['timeout'] and r['status'] != 'success':
+            rec['status'] = 'undecided'
+            R.undecided.append('harness %s: no verdict (timeout/memory cap)' % name)
+        elif r['status'] == 'failure':
+            real = [f for f in r['failed_checks'] if 'unwinding assertion' not in f]
+            if r['unwind'] and not real:
+                rec['status'] = 'undecided'
+                R.undecided.append('harness %s: unwinding assertion failed (bound too small for this code)' % name)
+            else:
+                expected = h.get('expect_fail')
+                R.failures.append(dict(backend='kani', unit='kani:' + h['group'], harness=name, fn=name.split('::')[-1], kind='kani-check',
+                                       clause='; '.join(real)[:400], obligation='kani::%s::%s' % (name, '; '.join(real)[:200]),
+                                       message='Kani: VERIFICATION FAILED', rendered=r['text'], in_extracted_fn=True,
+                                       failing_input=None, bounded=h.get('kind') != 'complete'))
+        elif r['status'] == 'success':
+            need = h.get('covers')
+            if r['covers'][1] and r['covers'][0] < r['covers'][1] and not h.get('allow_unsat_covers'):
+                rec['status'] = 'undecided'
+                R.undecided.append('harness %s: %d of %d cover properties satisfied (vacuous harness?)' % (name, r['covers'][0], r['covers'][1]))
+            if need and r['covers'][1] < need:
+                rec['status'] = 'undecided'
+                R.undecided.append('harness %s: expected >= %d cover properties, saw %d' % (name, need, r['covers'][1]))
+        R.harnesses.append(rec)
+    R.wall_s = time.time() - t0
+    return R
